@@ -331,10 +331,54 @@ def run(ctx):
                  'inside a variant cannot be sent); no wrapper type infers '
                  '"h", so the property is unaffected') if _variant_gap(
                      cm) else None
+    queue_rebinding(ctx)
     ctx.floor('C20.D1', 4)
     ctx.floor('C20.D2', 7)
     ctx.floor('C20.D3', 4)
     ctx.floor('C20.D4', 5)
+
+
+def queue_rebinding(ctx):
+    """Descriptors arrive (fileDescriptorReceived) before the bytes of the
+    message they belong to - also before the last authentication line of the
+    same read.  The queue may therefore be REBOUND only where it is created
+    (connectionMade / __init__, to an empty list) and where the consumer cuts
+    off what a message took (a slice of the queue itself); any other store
+    drops descriptors that are waiting for their message."""
+    prog = ctx.prog
+    n = 0
+    for fi in prog.all_funcs.values():
+        if fi.module.name != 'protocol':
+            continue
+        for node in prog._iter_scope(fi.node):
+            if not isinstance(node, ast.Assign):
+                continue
+            pairs = []
+            for t in node.targets:
+                if isinstance(t, (ast.Tuple, ast.List)) and \
+                        isinstance(node.value, (ast.Tuple, ast.List)) and \
+                        len(t.elts) == len(node.value.elts):
+                    pairs.extend(zip(t.elts, node.value.elts))
+                else:
+                    pairs.append((t, node.value))
+            for t, v in pairs:
+                if not (isinstance(t, ast.Attribute) and t.attr == FDQ):
+                    continue
+                n += 1
+                derived = any(isinstance(x, ast.Attribute) and x.attr == FDQ
+                              for x in ast.walk(v))
+                creating = fi.name in ('connectionMade', '__init__',
+                                       'makeConnection')
+                ctx.ob('C20.D3', fi.qualname, 'queue-rebound-only-by-'
+                       'consumer', derived or creating,
+                       '%s rebinds the descriptor queue to %s: descriptors '
+                       'received ahead of their message (e.g. in the read '
+                       'that also carries the end of the handshake) are '
+                       'dropped and every later index is off'
+                       % (fi.name, ast.unparse(v)[:40]),
+                       loc='%s:%d' % (fi.module.relpath, node.lineno))
+    if n == 0:
+        raise AnalysisError('the descriptor queue is never bound')
 
 
 def _variant_gap(cm):
